@@ -2,11 +2,11 @@ CONSTANTS
   Certs = {"x1", "x2", "x3", "p1", "p2"}
   ChainOf <- MCChainOf
   NoCache = FALSE
-  Cap = 0
+  Cap = 2
   MaxTree = 5
-  MaxFaults = 3
+  MaxFaults = 4
   Depth = 30
-  Dialect = "memory"
+  Dialect = "postgresql"
 INIT Init
 NEXT SimNext
 INVARIANTS ExportFinished CacheSound CacheBounded FaultClasses
